@@ -629,7 +629,16 @@ def rule_pool_size(ctx):
     ctx.floor("R1", "WorkerPool::new bodies with a sized sender table", n, 3)
 
 
+def rule_workers_keep_running(ctx):
+    """R6: a packet reported Queued is analysed only if the worker it was queued for is still there: no packet ends a worker's service
+    loop (shared with C01.R7)"""
+    from ..engine import report as R
+    from . import C01
+    C01.rule_liveness(R.Retag(ctx, "C01."))
+
+
 def run(ctx):
+    rule_workers_keep_running(ctx)
     rule_pool_size(ctx)
     rule_distinct_counters(ctx)
     rule_once(ctx)
